@@ -103,6 +103,15 @@ def plannedReads (acts : List Act) : List Acc :=
   (acts.filter (fun a => match a with | .rd _ _ => true | _ => false)).map
     (fun a => match a with | .rd a n => Acc.rd a n true | _ => Acc.lowFailed)
 
+def plannedAccs (acts : List Act) : List Acc :=
+  acts.map (fun a => match a with | .wr a v _ => Acc.wr a v true | .rd a n => Acc.rd a n true | .delay ms => Acc.delay ms)
+
+/-- every access of a fault-free call, in order: exactly the accesses the operation plans from
+    the configuration the CRATE had recorded before the call (C12/C13 "every register write is
+    one transaction ...": a write that never reaches the bus, or one sent twice, is not) -/
+def accessesOk (sh : Regs) (op : Op) (accs : List Acc) (ff : Bool) : Bool :=
+  if !ff then true else accs == plannedAccs (op.plan sh).acts
+
 def judgeCtor (c : Case) (o : Obs) : List String :=
   let t := c.ctor.transport c.dev
   judgeTransport t 0 o ++
@@ -172,8 +181,15 @@ def judgeOp (c : Case) (k : Nat) (op : Op) (prev : Obs) (o : Obs) : List String 
         if ff then chk "C10" k (decide (C10 pre post c.pos c.neg accs o.outcome)) else []
       | .softReset => chk "C11" k (decide (C11 shPost accs o.outcome))
       | _ => if ff then chk "C17" k (decide (C17 pre op accs o.outcome)) else []
-    tr ++ coherentOk ++ specific
+    let inv6 : List String :=
+      -- C06's invariant is an invariant of EVERY call (Thm.reach_step), not only of builders
+      match op with
+      | .selfTest | .softReset =>
+        if onlyDataFaults o.journal && decide (Inv6 pre) then chk "C06" k (decide (Inv6 post)) else []
+      | _ => []
+    tr ++ coherentOk ++ specific ++ inv6
       ++ chk "reads" k (readsOk (some shPre) op accs ff)
+      ++ chk "accesses" k (accessesOk shPre op accs ff)
   | none, _, _, _, _ => tr ++ [s!"decode@{k}"]
   | some accs, _, _, _, _ =>
     -- quiet case (no register dumps): what needs only the case and the result
